@@ -403,6 +403,8 @@ def chain_engines():
                             A('tz', 'z', 'analysis', inputs=[('ta', 'a', None, None)])]
     out['task-analysis-task'] = out['task-analysis'] + [
         A('tb', 'c', inputs=[('tz', 'z', None, None)])]
+    out['analysis-chain'] = out['task-analysis'] + [
+        A('ty', 'y', 'analysis', inputs=[('tz', 'z', 's', None)])]
     out['regress-leaf'] = [A('ta', 'a'),
                            A('tr', 'r', 'regress', inputs=[('ta', 'a', None, None)])]
     # names that are prefixes of one another, in one package
